@@ -287,6 +287,10 @@ func (u *Universe) declareUninterp(name string, args []string, res string) {
 	}
 	u.uninterpN[name] = res
 	u.uninterp = append(u.uninterp, fmt.Sprintf("(declare-fun %s (%s) %s)", name, strings.Join(args, " "), res))
+	if name == "bytes2str" {
+		// string(b) has as many bytes as b
+		u.uninterp = append(u.uninterp, "(assert (forall ((h (Array Int Int)) (s Slice)) (! (=> (>= (slen s) 0) (= (str.len (bytes2str h s)) (slen s))) :pattern ((bytes2str h s)))))")
+	}
 }
 
 // zero returns the SMT term of the zero value of t.
